@@ -67,14 +67,16 @@ pub struct WOut {
     pub first_err: Option<String>,
     /// name of the API call that failed first
     pub failed_call: Option<&'static str>,
+    /// raised by the simulator itself while driving the writer (lost wake-up, step budget)
+    pub sim_violation: Option<simcore::Violation>,
 }
 
 impl WOut {
     pub fn ok() -> Self {
-        WOut { api_ok: true, first_err: None, failed_call: None }
+        WOut { api_ok: true, first_err: None, failed_call: None, sim_violation: None }
     }
     pub fn fail(call: &'static str, e: impl std::fmt::Display) -> Self {
-        WOut { api_ok: false, first_err: Some(e.to_string()), failed_call: Some(call) }
+        WOut { api_ok: false, first_err: Some(e.to_string()), failed_call: Some(call), sim_violation: None }
     }
 }
 
@@ -88,11 +90,13 @@ pub struct ROut {
     pub src: Arc<Mutex<SourceState>>,
     pub schema_sig: Option<String>,
     pub max_batch_rows: usize,
+    /// raised by the simulator itself while driving the reader (lost wake-up, step budget)
+    pub sim_violation: Option<simcore::Violation>,
 }
 
 impl ROut {
     pub fn new(src: Arc<Mutex<SourceState>>) -> Self {
-        ROut { rows: vec![], batches: 0, err: None, invalid: None, src, schema_sig: None, max_batch_rows: 0 }
+        ROut { rows: vec![], batches: 0, err: None, invalid: None, src, schema_sig: None, max_batch_rows: 0, sim_violation: None }
     }
     pub fn hard_fired(&self) -> usize {
         self.src.lock().unwrap_or_else(|p| p.into_inner()).hard_fired
